@@ -129,7 +129,7 @@ def gen(seed, labels, cohort_max=None):
         cs = CallSet(samples, [("c1", 10 ** 6)], recs)
     else:
         cs = steered_callset(rng, samples, smap, project, nrec)
-    return {"cs": cs, "map": smap, "project": project, "labels": labels, "precision": rng.choice([0, 1, 2, 3, 6, 6, 9, 12]),
+    return {"cs": cs, "map": smap, "project": project, "labels": labels, "precision": rng.choice([0, 1, 2, 3, 6, 6, 9, 12, 15, 17, 25, 60, 308, 309, 320, 1000]),
             "container": rng.choice(E.CONTAINERS), "seed2": rng.randrange(1 << 30), "cohort_max": cohort_max}
 
 
@@ -170,6 +170,10 @@ def vec_from_per(per, shape):
 
 def check_L1(S, cases):
     reqs = [E.l1_request(c["cs"], c["map"], c["project"]) for c in cases]
+    for k_, (c, q_) in enumerate(zip(cases, reqs)):
+        # the order in which the reader builder is given its options is the caller's business, not the result's
+        q_["setters"] = ["samples-first", "project-first", "samples-twice"][(k_ + c["seed2"]) % 3]
+        S.observe("builder_setter_order", q_["setters"])
     for c, r in zip(cases, harness.run_all(reqs)):
         cs, smap, project = c["cs"], c["map"], c["project"]
         shape = [m + 1 for m in project]
